@@ -67,7 +67,7 @@ def gen_rotation(r, D, givens):
 
 
 # ----------------------------------------------------------------------------- case construction
-def gen_features(r, N, D, mult):
+def gen_features(r, N, D, mult, unit=1):
     """correlated integer features: latent integer factors mixed by a random integer matrix, plus small integer noise;
     multiplied by `mult` (a power of 5) so that 3-4-5 rotations stay exact"""
     L = max(1, min(D, r.range(1, 4)))
@@ -76,17 +76,18 @@ def gen_features(r, N, D, mult):
     F = []
     for i in range(N):
         row = [sum(Z[i][l] * A[l][j] for l in range(L)) + r.range(-2, 2) for j in range(D)]
-        F.append([Fraction(v * mult) for v in row])
+        F.append([Fraction(v * mult) * unit for v in row])
     return F
 
 
 def make_spec(r, op, method, quick, force=None):
     force = force or {}
-    spec = {"op": op, "method": method, "leg": force.get("leg", "cert")}
+    unit = _ll.pick_unit(r)
+    spec = {"op": op, "method": method, "leg": force.get("leg", "cert"), "unit": unit}
     if op != "embed":
         D = r.range(2, 8)
         N = r.choice([4, 8, 16]) if method == "lltsa" and r.chance(3, 4) else r.range(3, 16)
-        spec.update({"D": D, "d": 0, "k": 0, "kind": "integer", "pts": gen_features(r, N, D, 1),
+        spec.update({"D": D, "d": 0, "k": 0, "kind": "integer", "pts": gen_features(r, N, D, 1, unit),
                      "wseed": r.below(1 << 60), "sym": r.chance(2, 3), "density": r.choice([20, 40, 100]),
                      "dseed": r.below(1 << 60) if r.chance(1, 2) else None})
         return spec
@@ -95,7 +96,7 @@ def make_spec(r, op, method, quick, force=None):
     Nmax = 40 if quick else 64
     N = force.get("N") or r.range(max(D + 3, 8), max(D + 3, r.choice([16, 24, Nmax])))
     givens = r.choice([0, 1, 2]) if spec["leg"] == "rot" else 0
-    F = gen_features(r, N, D, 5 ** givens)
+    F = gen_features(r, N, D, 5 ** givens, unit)
     kmin = max(3, d + 2 if method == "lltsa" else 3)
     c = r.choice([0, 1, 2])
     k = kmin if c == 0 else (N - 1 if c == 1 else r.range(kmin, N - 1))
@@ -125,7 +126,7 @@ def sparse_int_matrix(r, N, sym, density):
 
 def decoy_rows(spec, mult):
     D = spec["D"]
-    return lambda rr: [Fraction(rr.range(-9, 9) * mult) for _ in range(D)]
+    return lambda rr: [Fraction(rr.range(-9, 9) * mult) * spec.get("unit", 1) for _ in range(D)]
 
 
 def build_line(spec):
@@ -160,7 +161,7 @@ def build_line(spec):
         R = gen_rotation(vlib.SplitMix64(spec["rseed"]), D, spec["givens"])
         Rt = [[R[j][i] for j in range(D)] for i in range(D)]
         F2 = matmul(Fall, Rt)
-        assert all(v.denominator == 1 for row in F2 for v in row), "rotated features must stay integers"
+        assert all((v / spec.get("unit", 1)).denominator == 1 for row in F2 for v in row), "rotated features must stay exact multiples of the unit"
         assert _ll.kernel_matrix(F2, "linear") == Kall
         line += " feat2=" + _ll.fmt_matrix(F2) + " rot=" + ";".join(",".join("%d/%d" % (v.numerator, v.denominator) for v in row) for row in R)
     return line + " kern=" + _ll.fmt_matrix(Kall) + " dist=" + _ll.fmt_matrix(Dall)
